@@ -93,7 +93,7 @@ pub fn run(ctx: &Ctx) -> (Report, Meta) {
     .thresholds(json!({"order_condition_residual": res_tol, "row_sum": 1e-14, "empirical_order_margin": {"RK4": 0.5, "RK23": 0.5, "DOPRI5": 0.6, "RADAU": 0.6, "DOP853": 1.2}, "pade_rel": 1e-12, "estimator_slope_tol": [0.4, 0.6], "steps_exponent_range": "[-1.35/q, -0.55/q]"}))
     .floor("order_conditions_checked", 500)
     .floor("tableau_variants_extracted", 20)
-    .floor("estimator_tree_probes", 100)
+    .floor("estimator_tree_probes", 50)
     .floor("local_order_slopes_fitted", 12)
     .floor("pade_points_checked", 30)
     .floor("step_count_exponents_fitted", 3);
